@@ -123,6 +123,15 @@ static void explore(Result& R) {
     if (th) { // 2 deviations over a reduced alphabet: every pair of (count token of a section header, menu value)
         std::vector<Case> singles; gen_vtk_faults(0, v1, x1, false, singles); std::vector<Case> cnt; for (auto& c : singles) if (c.kind.rfind("token-replaced-by-", 0) == 0 && (c.kind == "token-replaced-by-0" || c.kind == "token-replaced-by-4294967295" || c.kind == "token-replaced-by--1")) cnt.push_back(c);
         for (size_t i = 0; i < cnt.size(); i += 7) { std::vector<Case> second; gen_vtk_faults(0, cnt[i].vtk, x1, false, second); for (size_t j = 0; j < second.size(); j += 13) { Case c = second[j]; c.kind = cnt[i].kind + "+" + c.kind; cases.push_back(c); } } }
+    // arbitrary (short) byte strings: EVERY string up to length 3 (thorough; quick: 2) over an alphabet of the bytes and words the two parsers react to, offered as the whole mesh file
+    // and as the whole parameter file (the other file being a valid seed)
+    { const std::vector<std::string> AV = {"POINTS", "CELLS", "CELL_TYPES", "3", "-1", "float", " ", "\n", "x", std::string(1, '\0')}, AX = {"<", ">", "/", "numerical_parameters", "a", "=", "\"", " ", "&", "1"};
+      const int L = th ? 3 : 2; long nbs = 0;
+      for (int which = 0; which < 2; which++) { const auto& A = which ? AX : AV; std::vector<int> idx;
+          std::function<void()> rec = [&]() { std::string body; for (int i : idx) body += A[i]; Case c; c.seedset = 0; c.file = which ? "xml" : "vtk"; c.kind = "whole-file-is-a-short-string"; c.where = "len" + std::to_string(idx.size()); c.vtk = which ? v1 : body; c.xml = which ? body : x1; cases.push_back(c); nbs++;
+              if ((int)idx.size() < L) for (int i = 0; i < (int)A.size(); i++) { idx.push_back(i); rec(); idx.pop_back(); } };
+          rec(); }
+      R["whole_file_short_strings"] = nbs; }
     long unsafe = 0; std::map<std::string, long>& outcomes = R.tables["outcomes"]; std::map<std::string, long>& msgs = R.tables["distinct_exception_messages"];
     const int PAR = 16; std::vector<Running> running; size_t next = 0; long done = 0;
     auto finish = [&](const Running& r, int status, bool to) { const Case& c = cases[r.idx]; Outcome o = classify(status, to, r.dir); outcomes[o.cls.substr(0, o.cls.find(':') == std::string::npos ? o.cls.size() : (o.cls.rfind("sanitizer", 0) == 0 ? o.cls.size() : o.cls.find(':')))]++; done++;
